@@ -12,7 +12,8 @@ RULE = ('(a) complete placement: the child prints 5 or 2500 bytes and exits, the
         'complete when interact() returned because the child exited, a prefix when it returned on escape; what the child received '
         '== typed stream (through input_filter) up to an escape occurrence, nothing at or after it; interact() returns only on '
         'escape or child exit; terminal attributes afterwards == before, also when it raises; log files get the API string type '
-        'and the copied text. Non-trivial: >= 1 byte typed or printed; distinct by trace digest')
+        'and the copied text. Added later: input filters that produce or remove the escape byte, child output over all 256 byte values '
+        'and multi-byte text (incl. the escape byte), EINTR. Non-trivial: >= 1 byte typed or printed; distinct by trace digest')
 
 ASSUME = ['with several escape characters in one read any one of them may end the session (the statement does not fix which)',
           'the user starts typing >= 200 us after interact() was entered (raw mode is set within the first four calls)']
